@@ -622,6 +622,61 @@ def rule_member_lookup_scope(rep: Report, idx: SourceIndex) -> None:
 						names |= src | ctl
 						grew = True
 		r.check(prop_p in names, f'{c_.func.attr.lstrip("_")}:scopes', (m.relpath, c_.lineno), f'find_by_symbolic searches `{unparse(c_.args[2]) if len(c_.args) > 2 else "?"}` in `{unparse(sc)[:60]}`, a scope list that does not depend on `{prop_p}`: the member of a class is looked up like a bare name, from the scope of the class outwards, so for a class nested in a class a module-level class of the same spelling answers first (`class A: v: int`, `class Outer: class A(Base)` with Base.v: str -> `Outer.A.v` is typed int; renaming the unrelated module-level class changes the result)', unparse(c_))
+	_member_scope_depths(r, m, f)
+
+
+def _member_scope_depths(rep_rule, m, f) -> None:
+	"""...and the list is the class's own namespace ALONE. find_by_symbolic and __make_scopes are evaluated (vlib/dsneval) on a class two scopes deep:
+	each candidate scope `module.join(*elems[:i])` is represented by its prefix length i, the visibility filter is dropped (it can only remove), and the
+	search call is replaced by the scope list it receives. A member lookup must search [2] (the innermost scope), a bare name [2, 1, 0]."""
+	import copy, types
+	from vlib import dsneval
+	cls = f.cls
+	g = cls.method('__make_scopes') if cls is not None else None
+	if g is None:
+		rep_rule.skip('member:own-namespace-only', f.where, 'SymbolFinder.__make_scopes vanished: the scope list is not evaluated')
+		return
+
+	class T(ast.NodeTransformer):
+		def visit_ListComp(self, n: ast.ListComp):
+			self.generic_visit(n)
+			if len(n.generators) == 1 and isinstance(n.generators[0].target, ast.Name):
+				n.generators[0].ifs = []
+				tv = n.generators[0].target.id
+				# `<dsn>.join(*elems[:i])` -> i
+				if any(isinstance(x, ast.Starred) and isinstance(x.value, ast.Subscript) and isinstance(x.value.slice, ast.Slice) and x.value.slice.lower is None and isinstance(x.value.slice.upper, ast.Name) and x.value.slice.upper.id == tv for x in ast.walk(n.elt)):
+					n.elt = ast.Name(id=tv, ctx=ast.Load())
+			return n
+
+		def visit_Call(self, n: ast.Call):
+			self.generic_visit(n)
+			if isinstance(n.func, ast.Attribute) and '__find_raw' in n.func.attr and len(n.args) >= 2:
+				return n.args[1]
+			return n
+	fns = {}
+	for name, fn in (('find_by_symbolic', f), ('__make_scopes', g)):
+		node = ast.fix_missing_locations(T().visit(copy.deepcopy(fn.node)))
+		fns[name] = types.SimpleNamespace(node=node, is_property=False, cls=None, name=name)
+	fake = types.SimpleNamespace(method=lambda n: fns.get(n), bases_resolved=[])
+	params = [p_ for p_ in f.params() if p_ not in ('self', 'cls')]
+	scope_attr = next((unparse(x) for x in ast.walk(g.node) if isinstance(x, ast.Attribute) and x.attr == 'scope'), None)
+	expanded = next((unparse(x) for x in ast.walk(g.node) if isinstance(x, ast.Call) and unparse(x.func).endswith('.expanded')), None)
+	if len(params) < 3 or expanded is None:
+		rep_rule.skip('member:own-namespace-only', g.where, '__make_scopes no longer derives the scopes from ModuleDSN.expanded(<node>.scope)')
+		return
+	env = {expanded: ('m', ['A', 'B'])}
+	for fn in (f, g):
+		for x in ast.walk(fn.node):
+			if isinstance(x, ast.Call) and isinstance(x.func, ast.Name) and x.func.id == 'isinstance' and len(x.args) == 2:
+				env[unparse(x)] = unparse(x.args[1]).endswith('ClassDef')
+	got = {}
+	for label, prop in (('member', 'v'), ('bare-name', '')):
+		args = ['<db>', '<node>', prop][:len(params)] + ['<x>'] * max(0, len(params) - 3)
+		got[label] = dsneval.call_function(fake, 'find_by_symbolic', args, {}, 0, dict(env))
+	if got['bare-name'] != [2, 1, 0] or not isinstance(got['member'], list):
+		rep_rule.skip('member:own-namespace-only', f.where, f'the scope lists could not be evaluated (bare name: {got["bare-name"]!r}, member: {got["member"]!r})')
+		return
+	rep_rule.check(got['member'] == [2], 'member:own-namespace-only', f.where, f'for a class two scopes deep (m#A.B) a member lookup searches the scopes of prefix lengths {got["member"]} (2 = the class\'s own scope m#A.B, 1 = m#A, 0 = the module): the member inherited by a nested class is answered by a same-named class of an enclosing scope before the base classes are tried — `Holder.Item(Base).count` is typed from an unrelated outer `Item.count`', str(got['member']))
 
 
 def rule_import_alias(rep: Report, idx: SourceIndex) -> None:
